@@ -29,6 +29,7 @@ MARK = 424242  # every expression graft carries this literal so that we can tell
 NUM_GRAFTS = [
     "floordiv", "lshift", "rshift", "bitor", "bitxor", "bitand", "matmul", "invert", "chain", "in", "is",
     "seq-add", "seq-mul", "seq-neg", "seq-cmp", "seq-pow", "seq-div", "seq-mod", "vec-add", "vec-neg", "vec-cmp", "vec-pow",
+    "seq-negneg", "seq-posneg", "seq-notnot", "seq-neg4", "vec-negneg", "seq-cmp-rhs", "seq-sub-rhs",
     "agg-1", "agg-2", "slice", "slice-step", "scalar-Select", "scalar-Count", "scalar-Where", "scalar-First", "scalar-Sum", "math-module",
     "getAttribute", "kwarg-method", "kwarg-function", "kwarg-aggregate", "kwarg-collection",
 ]
@@ -99,12 +100,18 @@ class GraftGen(QGen):
                 if os_ is None:
                     return None
                 return f"{os_[0]}.Aggregate(lambda a, v: a + v + {MARK})" if k == "agg-1" else f"{os_[0]}.Aggregate(lambda v: v, lambda a, v: a + v + {MARK})"
+            extra = {"seq-negneg": f"((- -{s}).Count() + {MARK})", "seq-posneg": f"((+ -{s}).Count() + {MARK})", "seq-notnot": f"((not not {s}) if {t} > {MARK} else 0)",
+                     "seq-neg4": f"((- - - -{s}).Count() + {MARK})", "seq-cmp-rhs": f"({MARK} < {s})", "seq-sub-rhs": f"({MARK} - {s})"}
+            if k in extra:
+                return extra[k]
             return {"seq-add": f"({s} + {MARK})", "seq-mul": f"(({t} + {MARK}) * {s})", "seq-neg": f"((-{s}) if {t} > {MARK} else 0)", "seq-cmp": f"({s} > {MARK})", "seq-pow": f"({s} ** {MARK})",
                     "seq-div": f"({s} / {MARK})", "seq-mod": f"({s} % {MARK})"}[k]
         if k.startswith("vec-") or k in ("slice", "slice-step"):
             v = self._vec_text(scope)
             if v is None:
                 return None
+            if k == "vec-negneg":
+                return f"((- -{v}).Count() + {MARK})"
             return {"vec-add": f"({v} + {t} + {MARK})", "vec-neg": f"((-{v}) if {t} > {MARK} else 0)", "vec-cmp": f"(({t} + {MARK}) < {v})", "vec-pow": f"({v} ** {MARK})",
                     "slice": f"({v}[0:2].Count() + {MARK})", "slice-step": f"({v}[::2].Count() + {MARK})"}[k]
         if k == "getAttribute":
